@@ -117,6 +117,7 @@ class Run:
         self.first_val = None
         self.hedge_draws = 0
         self.repeat_in_loop = 0
+        self.step_u0 = None
 
     def v(self, prop, clause, key, detail=""):
         self.viol.append((prop, clause, key, str(detail)[:400]))
@@ -284,6 +285,7 @@ def install(run, patch):
         run.search_status = None
         rec = dict(c0=c0, it=run.loop_it)
         run.searches.append(rec)
+        run.step_u0 = np.array(self.u, float).ravel().copy()
         try:
             return o_ss(self, gp)
         finally:
@@ -310,8 +312,11 @@ def install(run, patch):
         rec = dict(c0=len(run.calls), it=run.loop_it, k0=int(self.mesh_size_integer), fval0=float(self.fval),
                    iter=int(self.optim_state["iter"]), mesh=float(self.mesh_size), u0=np.array(self.u, float).copy(),
                    smesh=float(self.optim_state["search_mesh_size"]), B=None, scale=None, nS0=run.n_S)
+        rec["fsd0"] = float(self.fsd) if self.fsd is not None and np.size(self.fsd) == 1 else None
+        rec["impr"] = []
         run.cur_poll = rec
         run.polls.append(rec)
+        run.step_u0 = np.array(self.u, float).ravel().copy()
         try:
             return o_ps(self, gp)
         finally:
@@ -323,6 +328,15 @@ def install(run, patch):
             run.phase = "loop"
 
     patch.set(BADS, "_poll_step_", poll_step)
+
+    o_ei = BADS._eval_improvement_
+
+    def eval_impr(self, f_base, f_new, s_base, s_new, q):
+        if run.cur_poll is not None and np.size(f_new) == 1:
+            run.cur_poll["impr"].append((float(np.ravel(f_base)[0]) if np.size(f_base) == 1 else None, float(np.ravel(f_new)[0])))
+        return o_ei(self, f_base, f_new, s_base, s_new, q)
+
+    patch.set(BADS, "_eval_improvement_", eval_impr)
 
     o_pm = bb.poll_mads_2n
 
@@ -491,6 +505,14 @@ def install_observers(run, patch):
 
     def lgf(gp, u, fl, options, optim_state, ih, refit):
         ls = copy.deepcopy(gp.temporary_data["len_scale"])
+        if run.phase in ("poll", "search") and run.step_u0 is not None:
+            allowed = [run.step_u0]
+            if run.phase == "search" and run.calls:
+                vt_ = fl.variable_transformer
+                allowed.append(np.ravel(vt_(run.calls[-1]["x"].reshape(1, -1))) if vt_ is not None else run.calls[-1]["x"])
+            uu_ = np.ravel(u)
+            if not any(np.allclose(uu_, a, rtol=0, atol=1e-12) for a in allowed):
+                run.v("C15", "training set is selected around a point that is not the current incumbent", "neighbours-wrong-centre/%s" % run.phase, (uu_.tolist(), allowed[0].tolist()))
         out = o_lgf(gp, u, fl, options, optim_state, ih, refit)
         g = out[0]
         check_gp("local", g, fl)
